@@ -22,6 +22,9 @@ THEOREMS = [
     'C09_generate_sub_two_numbers', 'C09_generate_div_mod', 'C09_generate_sqrt', 'C09_generate_equal',
     'C09_generate_plus_one', 'C09_generate_if_then_else', 'C09_generate_pairwise_if_then_else',
     'C09_generate_pairwise_xor',
+    'C09_sub_works', 'C09_sub_with_compare_works', 'C09_div_mod_works', 'C09_sqrt_works', 'C09_equal_works',
+    'C09_plus_one_works', 'C09_if_then_else_works', 'C09_pairwise_if_then_else_works',
+    'C09_pairwise_xor_works',
 ]
 PARTIAL = {}
 LEVEL_TEXT = ('every generator of the property (subtraction, subtract-with-compare, div-mod incl. b = 0, sqrt, '
@@ -33,9 +36,11 @@ LEVEL_TEXT = ('every generator of the property (subtraction, subtract-with-compa
               'is tied to /repo by regenerating binary_tt_to_type and the straight-line cells (translator T4) and '
               'by netlist-equality correspondence on every run')
 LEVEL_NOTE = ('Coq kernel + vm_compute; translators T1, T4; correspondence harness (label renaming by creation index); '
-              'theorems are conditional on the model run returning Ok (errors and an exhausted fresh-label retry '
-              'loop are excluded by the statement); add_equal is stated for at least one input bit; the model is of '
-              'the repaired code (fixes/D8, D9, D10)')
+              'each value theorem is stated for a model run that returns Ok; that the run does return Ok for existing '
+              'operand gates, documented widths and new, distinct caller-chosen labels is proved separately '
+              '(C09_*_works) for every injective naming function of the uuid counter (pairwise if-then-else: result '
+              'labels not of the uuid shape); add_equal is stated for at least one input bit; the model is of the '
+              'repaired code (fixes/D8, D9, D10)')
 TECHNIQUE = ('Coq proof: generators as programs of a deep-embedded builder monad over the Circuit model; one generic '
              'extension theorem by induction on programs + a step lemma per added gate; value theorems by induction '
              'on operand lists with borrow/carry invariants, restoring-division and digit-by-digit square-root '
@@ -91,8 +96,8 @@ def correspondence(ctx, model_ok):
               'unequal operand widths, empty operands, hosts that already contain an upcoming uuid label; '
               'all 16 truth-table strings through add_gate_from_tt; the generate_* wrappers. '
               'non-trivial = the call added at least one gate; distinct = hash of the case')
-    max_w = ctx.n(12, 24)
-    cases = ac.quick_cases(ctx.rng, max_w=max_w, reps=ctx.n(1, 2))
+    cases = ac.quick_cases(ctx.rng, max_w=ctx.n(12, 16), reps=1,
+                           extra_widths=ctx.n((), (20, 24, 32)), heavy_cap=ctx.n(12, 16))
     gcases = ac.gen_cases(ctx.rng, max_w=ctx.n(8, 12))
     terms, results = [], []
     for c in cases:
